@@ -281,12 +281,12 @@ def models_agree(ctx, models, at, nd, a0):
     m = ctx.heap[v[1]]
     if not m['cls'].endswith('.Bycycle'):
         return False, f'model class {m["cls"]}'
-    lv0 = ('lv', ('over', ('param', 'sigs')), 0)
+    lv0 = ('lv', ('range', C(0), T.length(('param', 'sigs')), C(1)), 0)
     sig0 = T.index(('param', 'sigs'), lv0)
     if nd == 2:
         want_k, want_sig, want_df = lv0, sig0, T.index(at['df_features'], lv0)
     else:
-        lv1 = ('lv', ('over', sig0), 1)
+        lv1 = ('lv', ('range', C(0), T.length(sig0), C(1)), 1)
         want_k = ('path', (lv0, lv1))
         want_sig = T.index(sig0, lv1)
         want_df = T.index(T.index(at['df_features'], lv0), lv1)
